@@ -30,6 +30,16 @@ class C20(ProgProp):
         for o in on:
             # "on" flips the option relative to its default
             options[o] = not real.DEFAULT_OPTIONS[o]
+        if rng.random() < 0.3:
+            # one kind is served by asynq's own DebugBatch (no harness subclass at all); constant
+            # per-kind priorities above the default's (0, n) keep the flush order hash-independent
+            spec["native_debug_kinds"] = [rng.randint(0, spec["kinds"] - 1)]
+            spec["debug_kinds"] = [k for k in spec.get("debug_kinds", []) if k not in spec["native_debug_kinds"]]
+            spec["prio"] = {"policy": "const", "vals": {str(k): k for k in range(spec["kinds"])}, "hashes": {}}
+            for key in [x for x in spec["faults"]["items"] if int(x.split(":")[0]) in spec["native_debug_kinds"]]:
+                del spec["faults"]["items"][key]
+            for key in [x for x in spec["faults"]["flushes"] if int(x.split("#")[0]) in spec["native_debug_kinds"]]:
+                del spec["faults"]["flushes"][key]
         clock = {"seed": rng.randint(0, 10 ** 6), "mode": rng.choice(["small", "mixed", "huge", "huge"])}
         return {"spec": spec, "options": options, "clock": clock,
                 "dump_interval": rng.choice([0, 1, 1, 3600])}
